@@ -6,6 +6,7 @@ import Poulpy.Lemmas.RingAuto
 import Poulpy.Lemmas.RingSwitch
 import Poulpy.Lemmas.RingVec
 import Poulpy.Lemmas.Galois
+import Poulpy.Lemmas.NegRing
 
 /-!
 # C09 — coefficient-domain ring operations match `Z[X]/(X^N+1)` exactly
@@ -437,5 +438,30 @@ theorem negate_exact_mod (a : Poly) (i : Nat) (hi : i < a.length) :
 
 example : znxAdd [2 ^ 63 - 1] [1] = [-2 ^ 63] := by decide
 example : znxNegate [-2 ^ 63] = [-2 ^ 63] := by decide
+
+/-! ## the exact negacyclic product `negMul` is the product of `ℤ[X]/(X^N+1)` (transfer through Mathlib's `AdjoinRoot`) -/
+
+open Polynomial in
+/-- `negMul` computes the product of the quotient ring: the class of `negMul a b` is the product of the classes -/
+theorem negMul_is_quotient_product (N : Nat) (hN : 0 < N) (a b : Poly) (hb : b.length = N) :
+    AdjoinRoot.mk (X ^ N + 1 : ℤ[X]) (toPoly (negMul a b))
+      = AdjoinRoot.mk _ (toPoly a) * AdjoinRoot.mk _ (toPoly b) := mk_negMul N a b hb hN
+
+theorem negMul_length (a b : Poly) : (negMul a b).length = b.length := _root_.negMul_length a b
+
+theorem negMul_comm (N : Nat) (hN : 0 < N) (a b : Poly) (ha : a.length = N) (hb : b.length = N) :
+    negMul a b = negMul b a := _root_.negMul_comm N a b ha hb hN
+
+theorem negMul_assoc (N : Nat) (hN : 0 < N) (a b c : Poly) (hb : b.length = N) (hc : c.length = N) :
+    negMul (negMul a b) c = negMul a (negMul b c) := _root_.negMul_assoc N a b c hb hc hN
+
+theorem negMul_add (N : Nat) (hN : 0 < N) (a b c : Poly) (hb : b.length = N) (hc : c.length = N) :
+    negMul a (addL b c) = addL (negMul a b) (negMul a c) := _root_.negMul_add N a b c hb hc hN
+
+/-- the `X` used by `negMul` is the model's rotation by one (exact ring) -/
+theorem mulX_is_rotate (l : Poly) : mulX l = znxRotateW id 1 l := mulX_eq_rotate l
+
+example : negMul [1, 1, 0, 0] [0, 0, 0, 1] = [-1, 0, 0, 1] := by decide
+example : negMul [0, 0, 0, 1] [1, 1, 0, 0] = [-1, 0, 0, 1] := by decide
 
 end C09
